@@ -755,7 +755,8 @@ class ScipyOptimizeDriver(Driver):
                 self._exc_info = sys.exc_info()
             return np.array([[]])
 
-        return grad[0, :]
+        # the total jacobian array is reused by later calls, so give scipy its own copy
+        return grad[0, :].copy()
 
     def _congradfunc(self, x_new, name, dbl, idx):
         """
@@ -801,7 +802,7 @@ class ScipyOptimizeDriver(Driver):
         # bounds are passed to scipy, so there is no sign change)
         if meta['equals'] is not None or \
                 (self.options['optimizer'] in _supports_new_style and _use_new_style):
-            return grad[grad_idx, :]
+            return grad[grad_idx, :].copy()
 
         # Note, scipy defines constraints to be satisfied when positive,
         # which is the opposite of OpenMDAO.
@@ -812,7 +813,7 @@ class ScipyOptimizeDriver(Driver):
         if dbl or (lower <= -INF_BOUND):
             return -grad[grad_idx, :]
         else:
-            return grad[grad_idx, :]
+            return grad[grad_idx, :].copy()
 
 
 def signature_extender(fcn, extra_args):
